@@ -297,13 +297,16 @@ Theorem C13_source_attempt_is_model :
   forall (hmac : N -> bytes -> bytes -> bytes) (sha1 : bytes -> bytes) (blk_dec : N -> bytes -> bytes -> bytes)
          (zdecomp : N -> bytes -> N -> option bytes) (cf : conf) (mem : N -> N -> bool) (pu pg now : N)
          (cred : bytes) (rs : CredModel.rstate) (i : nat),
-  let run so := src_dec_process_msg (dec_ops hmac sha1 blk_dec zdecomp cf mem pu pg now so) (dinit (attempt_msg cred i) rs) in
+  let run so := src_dec_process_msg (dec_ops hmac sha1 blk_dec zdecomp cf mem pu pg now (u32 now) so) (dinit (attempt_msg cred i) rs) in
   let att f := dec_attempt hmac sha1 blk_dec zdecomp cf mem cred pu pg now rs i f in
   att (Some ReqCut) = (rs, None) /\
   att (Some RspLost) = (d_rs (snd (run true)), None) /\
   att (Some RspSendFailed) = (d_rs (snd (run false)), None) /\
   att None = (d_rs (snd (run true)), Some (d_msg (snd (run true)))).
-Proof. exact dec_attempt_is_source. Qed.
+Proof.
+  exact (fun hmac sha1 blk_dec zdecomp cf mem pu pg now cred rs i =>
+           dec_attempt_is_source hmac sha1 blk_dec zdecomp cf mem pu pg now (u32 now) cred rs i eq_refl).
+Qed.
 Print Assumptions C13_source_attempt_is_model.
 Theorem C13_source_decode_control : forall (S : Type) (ops : pipe_ops S) (s : S),
   src_dec_process_msg ops s = pipe_control ops dec_stage_order soft_err (Some "is_replay_new"%string) s.
@@ -314,12 +317,14 @@ Theorem C13_source_retry_limit : forall (cf : conf) (m : msg),
   src_enc_check_retry cf m = ((if c_retry_attempts <? m_retry m then e_socket else 0), m).
 Proof. exact (fun cf m => conj (dec_check_retry_is_source cf m) (enc_check_retry_is_source cf m)). Qed.
 Print Assumptions C13_source_retry_limit.
-Theorem C13_source_retry_exemption : forall (cf : conf) (ins en c : Z) (m : msg),
-  src_dec_validate_replay cf ins en c m =
-  ((if (ins =? 0)%Z then 0
+Theorem C13_source_retry_exemption : forall (cf : conf) (clk ins en c : Z) (m : msg),
+  src_dec_validate_replay cf clk ins en c m =
+  ((if (ins =? 0)%Z then (if (clk =? -1)%Z then e_snafu
+                          else if (clk >? Z.of_N (m_time0 m) + Z.of_N (m_ttl m))%Z then e_cred_expired else 0)
     else if (ins >? 0)%Z
          then (if cf_socket_retry cf && (0 <? m_retry m) && (m_retry m <=? c_retry_attempts) then 0 else e_cred_replayed)
-    else if (en =? 12)%Z then e_no_memory else e_snafu), m, (if (ins =? 0)%Z then 1 else c)%Z).
+    else if (en =? 12)%Z then e_no_memory else e_snafu), m,
+   (if (ins =? 0)%Z && negb (clk =? -1)%Z && negb (clk >? Z.of_N (m_time0 m) + Z.of_N (m_ttl m))%Z then 1 else c)%Z).
 Proof. exact dec_validate_replay_is_source. Qed.
 Print Assumptions C13_source_retry_exemption.
 
